@@ -28,6 +28,7 @@ VARIABLES vt,     \* the Vt
 
 vars == <<vt, hist, ok>>
 McView == <<vt, ok>>
+McViewPath == <<vt, ok, hist>>     \* every PATH is a state: for models whose behaviours are also fed as one call (what a call reports may depend on the path)
 
 (* all property predicates on one call: (pre-state, function or "resize", result) *)
 JudgeCall(pre, fns, r) ==
